@@ -28,6 +28,7 @@ type harnessSpec struct {
 	BudgetQ  int      `json:"budget_quick_s"`
 	BudgetT  int      `json:"budget_thorough_s"`
 	NeedClock bool    `json:"need_clock"`
+	Solver    string  `json:"solver"`
 }
 
 type propSpec struct {
@@ -192,6 +193,9 @@ func cmdCheck(args []string) int {
 			timeout = 60000
 		}
 		opt := runOpts{tier: tier, unwind: unwind, maxSteps: 200_000_000, seed: seed, solver: "z3", timeoutMS: timeout, workers: workers, budgetS: budget}
+		if h.Solver != "" {
+			opt.solver = h.Solver
+		}
 		rotations := []int{0}
 		if tier == 1 && h.Rotate > 0 {
 			for r := 1; r <= h.Rotate; r++ {
@@ -506,6 +510,18 @@ func (rp *replayer) validateWitnesses(pkg string, ws []*candidate) (ok, bad int,
 // vrtNow (defined by the harness runtime of that package) for native replay.
 func clockOverlay(gen string) (map[string]string, error) {
 	res := map[string]string{}
+	// the default file handler's os calls are recorded, not executed, during native replay too
+	if data, err := os.ReadFile("/repo/attachment/file_event.go"); err == nil {
+		if _, err := os.Stat(filepath.Join(harnessRoot(), "attachment")); err == nil {
+			s := strings.ReplaceAll(string(data), "os.MkdirAll(", "vrtMkdirAll(")
+			s = strings.ReplaceAll(s, "os.WriteFile(", "vrtWriteFile(")
+			real := filepath.Join(gen, "fs_file_event.go")
+			if err := os.WriteFile(real, []byte(s), 0o644); err != nil {
+				return nil, err
+			}
+			res["/repo/attachment/file_event.go"] = real
+		}
+	}
 	for _, f := range []string{"/repo/service/packet_parse.go"} {
 		data, err := os.ReadFile(f)
 		if err != nil {
